@@ -271,3 +271,46 @@ def to_source(pipeline, indent=1):
                 args.append(repr(a))
         lines.append('%s%s(%s),  # spec %r\n' % (pad, names.get(o[0], o[0]), ', '.join(args), o[0]))
     return ''.join(lines)
+
+
+# ----------------------------------------------------------------------------- keys / predicates whose
+# values are equal (==) but never identical objects
+
+def _k_mixed(x):
+    c = x % 10
+    if c == 0:
+        return 10 ** 20 + 0 * x          # big int, fresh object
+    if c == 1:
+        return tuple([1, 'a'])           # fresh tuple
+    if c == 2:
+        return ''.join(['k', str(2)])    # run-time string
+    if c == 3:
+        return 1
+    if c == 4:
+        return float(1)                  # == 1 == True: same group as class 3
+    if c == 5:
+        return None
+    return c
+
+
+def _p_mixed(x):
+    c = x % 10
+    if c == 0:
+        return 10 ** 20 + 0 * x
+    if c == 1:
+        return float(10 ** 20)           # == class 0 value
+    if c == 2:
+        return tuple(['t'])
+    return c
+
+
+FUNCS.update({
+    'k_mixed': _k_mixed,
+    'p_mixed': _p_mixed,
+    'p_big': lambda x: 10 ** 20 + (x % 10),
+    'p_str': lambda x: ''.join(['p', str(x % 10)]),
+    'mod10': lambda x: x % 10,
+    'ts_div10': lambda x: x // 10,
+    'closing_mod10': lambda x: x % 10 == 1,
+    'ts_100': lambda x: (x % 100) // 10 if False else (x // 10) % 100,
+})
